@@ -95,6 +95,14 @@ CHECKS.append({
     "technique": "Coq proof (permutation invariance of sort / name scopes / usage fixpoint) + regenerated hash-walk inventory + repeated-compilation comparison",
 })
 
+CHECKS.append({
+    "property_id": "C17",
+    "text": "Coq model of the pipeline loop of compile (no-pipeline mode, name filter, the three error exits, the panic on a duplicated name) with the front end and build_pipeline as parameters. Theorems for every pipeline list and build function: without a name the results are one per definition in source order; with a name the result is exactly the (unique) pipeline of that name; a name no definition has fails with NotFound; a file without pipelines fails unless no-pipeline mode is on, in which case the module is built once; and a pipeline compiled by name equals the element at its position in the whole-file result. A source obligation regenerated on every run pins every read and write of Module::pipelines / selected_pipeline (exporters read it only at the selected index). The model's verdict is compared with compile on all lists of 0-4 compute pipelines x every filter x both modes x three targets; metamorphic runs compare, for 1-4 pipelines of ten kinds sharing entry points and resources, the whole-file result with the by-name result and with the result after removing the other Pipeline blocks (source, stages, metadata, pipeline state). One defect was repaired (two Pipeline blocks with one name were accepted and aborted compile).",
+    "design_ref": "DESIGN.md §4 C17",
+    "note": "Partial: independence of build_pipeline from the other definitions rests on the source obligation and the metamorphic runs, not on a proof about the exporters. Known finding: on MSL a file that holds a mesh or task entry function fails for every pipeline that is not a mesh pipeline (the whole module is exported for each pipeline).",
+    "technique": "Coq proof over the driver model + regenerated source obligation + model/implementation correspondence + metamorphic multi-pipeline runs",
+})
+
 _claimed = {c["property_id"] for c in CHECKS}
 NOT_APPLICABLE = [
     {"property_id": p, "reason": "not yet claimed: model/theorems under construction (see DESIGN.md build order); no check registered until it passes on the unchanged tree"}
